@@ -91,7 +91,8 @@ def run(ctx):
     for l in lines:
         f = l.split("\t")
         kinds[f[0]] = kinds.get(f[0], 0) + 1
-        c = f[0] + ":" + f[-1].split(":")[0].split("|")[0][:8]
+        oc = f[-1].split(":")[0].split("|")[0][:8]
+        c = f[0] + ":" + (oc if oc in ("ok", "err", "panic") else "value")
         classes[c] = classes.get(c, 0) + 1
     ctx.cov["evaluations"] += len(lines)
     ctx.cov["distinct_nontrivial"] += distinct
